@@ -22,10 +22,11 @@ EXPLANATION = (
     "R-string-form (numeric raw values are grouped INTO their string form, str(int(v)) exactly when "
     "the float is integral); R-nan-restore (boolean provenance: NaN is written back for feature f iff "
     "not features_dropna[f] and str_nan has a label, replacing exactly that label); R-qualitative-map "
-    "(qualitative replacement uses labels_per_values restricted to qualitative features)."
+    "(qualitative replacement uses labels_per_values restricted to qualitative features); R-index-kept "
+    "(quantitative labels built from plain lists are stored with index=X.index: each row gets the label of its own value)."
 )
 NOT_DECIDED = "pandas replace/select semantics; equality of outputs on data"
-FLOORS = {"R-labels-last": 12, "R-interval-lookup": 2, "R-float-labels-injective": 1, "R-label-injective": 1, "R-string-form": 2, "R-nan-restore": 2, "R-qualitative-map": 1}
+FLOORS = {"R-labels-last": 12, "R-interval-lookup": 2, "R-float-labels-injective": 1, "R-label-injective": 1, "R-string-form": 2, "R-nan-restore": 2, "R-qualitative-map": 1, "R-index-kept": 1}
 
 EDIT_NAMES = ("values_orders", "_remove_feature", "features", "quantitative_features", "qualitative_features")
 
@@ -172,17 +173,29 @@ def rule_label_injective(ctx):
                 if cc and cc[0].startswith("len(set(") and cc[2].startswith("len(") and cc[1] in ("<", "==", "!=", "<="):
                     tests.append(n)
     established = False
+    capped = None
     for t in tests:
         if isinstance(t, ast.While):
-            # the loop must be able to change the labels: its body re-formats with a dynamic spec
-            established = established or any(k == "dynamic" for _, k in _lossy_formats(t))
+            # the loop must be able to change the labels: its body re-formats with a dynamic spec,
+            # and its own bound must let the precision reach 16 decimals (17 significant digits,
+            # the shortest format that is injective on float64)
+            ok_loop = any(k == "dynamic" for _, k in _lossy_formats(t))
+            for c in conjuncts(t.test):
+                cc = cmp_canon(c)
+                if cc and cc[1] in ("<", "<=") and cc[2].lstrip("-").isdigit() and not cc[0].startswith("len("):
+                    reach = int(cc[2]) if cc[1] == "<" else int(cc[2]) + 1
+                    if reach < 16:
+                        ok_loop = False
+                        capped = reach
+            established = established or ok_loop
         elif isinstance(t, ast.Assert):
             established = True
     if not lossy:
         ctx.ob(R, construct(fi, "quantile labels use an exact (>= 16 digits) or no numeric format"), True, loc(fi))
         return
     ctx.ob(R, construct(fi, "lossy number format used as label: distinctness of labels is established by a len(set(labels)) test"), established, loc(fi, lossy[0][0]),
-           "" if established else "two boundaries that agree on the formatted digits get the same label; labels are dict keys, so their groups collapse at transform")
+           "" if established else (f"precision escalation stops at {capped} decimals: float64 boundaries that agree on that many digits still share a label" if capped is not None else
+                                   "two boundaries that agree on the formatted digits get the same label; labels are dict keys, so their groups collapse at transform"))
 
 
 def rule_string_form(ctx):
@@ -287,6 +300,9 @@ def check(ctx):
     rule_string_form(ctx)
     rule_nan_restore(ctx)
     rule_qualitative_map(ctx)
+    from . import c07
+
+    c07.rule_index_kept(ctx)
 
 
 _D11_FIXED = """    # scientific formatting, increasing precision until distinct quantiles have distinct formats
